@@ -233,14 +233,58 @@ def _formatter_thunks(rng, tmpdir):
     return thunks, {"family": "formatter"}
 
 
+def _shared_region_thunks(rng, tmpdir):
+    """ONE region (regions are immutable) sliced by several threads through its seconds / milliseconds views and by samples,
+    each thread asking for its own windows"""
+    rate = rng.choice((8, 10, 100, 1000))
+    width, channels = rng.choice(((1, 1), (2, 1), (2, 2)))
+    n = rng.randint(20, 60)
+    data = A.random_pcm(random.Random(rng.getrandbits(32)), n, width, channels)
+    region = auditok.AudioRegion(data, rate, width, channels)
+    thunks = []
+    for i in range(rng.choice((2, 3))):
+        wins = [(rng.randint(0, n), rng.randint(0, n)) for _ in range(8)]
+
+        def th(wins=wins):
+            out = []
+            for _ in range(3):
+                for a, b in wins:
+                    out.append((bytes(region.sec[a / rate : b / rate]), bytes(region.ms[1000 * a // rate : 1000 * b // rate]), bytes(region[a:b])))
+            return out
+
+        thunks.append(th)
+    return thunks, {"family": "shared_region", "fmt": [rate, width, channels], "n": n}
+
+
+def _shared_validator_thunks(rng, tmpdir):
+    """ONE validator object judging different windows from several threads (its verdict is a function of the window)"""
+    width = rng.choice((1, 2, 4))
+    channels = rng.choice((1, 2, 3))
+    n = rng.choice((4, 16, 50))
+    uc = rng.choice((None, "mix", 0, -1)) if channels > 1 else None
+    lo, hi = A.THR_RANGE[width]
+    val = AudioEnergyValidator(round(rng.uniform(lo, hi), 1), width, channels, use_channel=uc)
+    thunks = []
+    for i in range(rng.choice((2, 3))):
+        r2 = random.Random(rng.getrandbits(32))
+        wins = [bytes(n * width * channels) if (k + i) % 2 else A.random_pcm(r2, n, width, channels) for k in range(12)]
+
+        def th(wins=wins):
+            return [bool(val.is_valid(w)) for w in wins]
+
+        thunks.append(th)
+    return thunks, {"family": "shared_validator", "width": width, "channels": channels, "window_samples": n, "uc": uc}
+
+
 FAMILIES = {
     "split": _split_thunks, "tokenizer": _tokenizer_thunks, "validator": _validator_thunks, "reader": _reader_thunks,
     "source": _source_thunks, "region": _region_thunks, "file": _file_thunks, "formatter": _formatter_thunks,
+    "shared_region": _shared_region_thunks, "shared_validator": _shared_validator_thunks,
 }
 BY_PROPERTY = {
     "C01": ("tokenizer",), "C02": ("tokenizer",), "C03": ("tokenizer",), "C04": ("tokenizer",), "C05": ("split",), "C06": ("split",),
-    "C07": ("validator", "split"), "C08": ("tokenizer", "split"), "C09": ("split",), "C10": ("reader",), "C11": ("source",),
-    "C15": ("formatter",), "C16": ("region",), "C17": ("region",), "C18": ("file", "region"), "C19": ("reader",), "C20": ("validator", "split", "tokenizer"),
+    "C07": ("validator", "shared_validator", "split"), "C08": ("tokenizer", "split"), "C09": ("split",), "C10": ("reader",), "C11": ("source",),
+    "C15": ("formatter",), "C16": ("region", "shared_region"), "C17": ("region",), "C18": ("file", "region"), "C19": ("reader",), "C20": ("validator", "shared_validator", "split", "tokenizer"),
 }
 
 
